@@ -131,9 +131,14 @@ public:
 			dispatcher->appendListener(event, listener)
 		};
 
-		{
+		try {
 			std::unique_lock<typename DispatcherType::Mutex> lock(itemListMutex);
 			itemList.push_back(item);
+		}
+		catch(...) {
+			// The listener can't be recorded, don't leave it attached with nobody to remove it.
+			dispatcher->removeListener(item.event, item.handle);
+			throw;
 		}
 
 		return item.handle;
@@ -150,9 +155,14 @@ public:
 			dispatcher->prependListener(event, listener)
 		};
 		
-		{
+		try {
 			std::unique_lock<typename DispatcherType::Mutex> lock(itemListMutex);
 			itemList.push_back(item);
+		}
+		catch(...) {
+			// The listener can't be recorded, don't leave it attached with nobody to remove it.
+			dispatcher->removeListener(item.event, item.handle);
+			throw;
 		}
 		
 		return item.handle;
@@ -170,9 +180,14 @@ public:
 			dispatcher->insertListener(event, listener, before)
 		};
 		
-		{
+		try {
 			std::unique_lock<typename DispatcherType::Mutex> lock(itemListMutex);
 			itemList.push_back(item);
+		}
+		catch(...) {
+			// The listener can't be recorded, don't leave it attached with nobody to remove it.
+			dispatcher->removeListener(item.event, item.handle);
+			throw;
 		}
 		
 		return item.handle;
@@ -274,9 +289,14 @@ public:
 			callbackList->append(callback)
 		};
 
-		{
+		try {
 			std::unique_lock<typename CallbackListType::Mutex> lock(itemListMutex);
 			itemList.push_back(item);
+		}
+		catch(...) {
+			// The callback can't be recorded, don't leave it attached with nobody to remove it.
+			callbackList->remove(item.handle);
+			throw;
 		}
 
 		return item.handle;
@@ -291,9 +311,14 @@ public:
 			callbackList->prepend(callback)
 		};
 
-		{
+		try {
 			std::unique_lock<typename CallbackListType::Mutex> lock(itemListMutex);
 			itemList.push_back(item);
+		}
+		catch(...) {
+			// The callback can't be recorded, don't leave it attached with nobody to remove it.
+			callbackList->remove(item.handle);
+			throw;
 		}
 
 		return item.handle;
@@ -309,9 +334,14 @@ public:
 			callbackList->insert(callback, before)
 		};
 
-		{
+		try {
 			std::unique_lock<typename CallbackListType::Mutex> lock(itemListMutex);
 			itemList.push_back(item);
+		}
+		catch(...) {
+			// The callback can't be recorded, don't leave it attached with nobody to remove it.
+			callbackList->remove(item.handle);
+			throw;
 		}
 
 		return item.handle;
